@@ -63,11 +63,44 @@ def tok_obj(h, mode, prefix=''):
         h.assume(All(1, length(b), lambda k: S.data_byte(at(b, k))))
         attrs['_status'] = 0xF0
         attrs['_len'] = INF
+    if h.sym:
+        del Cell.MUTATED_SEALED[:]
+        if mode.startswith('idle') and isinstance(bs, Cell):
+            # an idle tokenizer's `_bytes` may still be the list object of the last completed message, which sits in the queue
+            bs.sealed = 'possibly a queued token (tokenizer idle)'
     t = h.obj(T.Tokenizer, attrs)
     h.tok = t
     h.tok0 = dict(attrs)
     h.cur0 = cur_of(attrs)
     return t
+
+
+def havoc_buffer(term, status):
+    """an arbitrary `_bytes` list for a cut loop / summary: if the tokenizer is idle it may be a queued token"""
+    c = Cell(SSeq(term, list), list)
+    if is_z(status):
+        c.sealed = ('possibly a queued token (tokenizer idle)', status == 0)
+    elif status == 0:
+        c.sealed = 'possibly a queued token (tokenizer idle)'
+    return c
+
+
+def alias_clauses(attrs):
+    """ALIAS DISCIPLINE of the tokenizer (part of its representation invariant): a list object that is in the queue is never
+    changed again, and the buffer of an open message is not in the queue.  The tokenizer queues `self._bytes` itself, so
+    any in-place change of it after completion would corrupt a message that was already recognised."""
+    if z3 is None:
+        return {}              # run-time evaluation on the real code: aliasing is real there, nothing to track
+    bad = []
+    for sealed, cell in Cell.MUTATED_SEALED:
+        bad.append(Not(sealed[1]) if isinstance(sealed, tuple) else False)
+    out = {'alias.queued-token-never-mutated': And(*bad) if bad else True}
+    toks = new_tokens(attrs) if isinstance(attrs.get('_messages'), collections.deque) else None
+    st = V(attrs['_status'])
+    for tk in toks or []:
+        if tk is attrs.get('_bytes'):
+            out['alias.open-message-buffer-is-not-in-the-queue'] = (st == 0)
+    return out
 
 
 def cur_of(attrs):
@@ -136,6 +169,7 @@ class TokFeedByte(Contract):
         attrs = attrs_of(h.tok)
         out = {'byte-in-range': And(0 <= byte, byte <= 255), 'returns-None': r is None}
         out.update({'WF.' + k: v for k, v in wf_clauses(attrs).items()})
+        out.update(alias_clauses(attrs))
         toks = new_tokens(attrs)
         out['queue-only-appended'] = toks is not None
         if toks is None:
@@ -202,7 +236,7 @@ class _FeedLoop(LoopSpec):
         ln = ctx.fresh('h_len')
         bs = ctx.fresh('h_bytes', IntSeq)
         t.attrs['_status'] = SInt(stv)
-        t.attrs['_bytes'] = Cell(SSeq(bs, list), list)
+        t.attrs['_bytes'] = havoc_buffer(bs, stv)
         # `_len` is an int while a fixed-length message is open and inf while a sysex is open
         which = ctx.fork(2)
         t.attrs['_len'] = SInt(ln) if which == 0 else INF
@@ -219,6 +253,8 @@ class _FeedLoop(LoopSpec):
             for j, c in enumerate(S.wellformed(V(tk))):
                 ip.ctx.oblige('feed.token-wellformed.%d' % j, c, kind='ensures')
         st.checked = len(toks)
+        for k, c in alias_clauses(st.tok.attrs).items():
+            ip.ctx.oblige('feed.' + k, c, kind='ensures')
 
     def inv(self, ip, fr, st):
         a = st.tok.attrs
@@ -234,7 +270,7 @@ class _FeedLoop(LoopSpec):
 @contract
 class TokFeed(Contract):
     target = 'mido.tokenizer:Tokenizer.feed'
-    properties = ('C04', 'C05')
+    properties = ('C04', 'C05', 'C06')      # C06: a prefix and a message fed in ONE call share the queue (alias discipline)
     configs = tuple({'mode': m, 'seq': s} for m in MODES for s in ('bytes', 'list'))
     loops = {('mido.tokenizer:Tokenizer.feed', 0): _FeedLoop()}
     raises = {}
@@ -247,6 +283,7 @@ class TokFeed(Contract):
     def ensures(self, h, cfg, a, r):
         attrs = attrs_of(h.tok)
         out = {'WF.' + k: v for k, v in wf_clauses(attrs).items()}
+        out.update(alias_clauses(attrs))
         toks = new_tokens(attrs)
         out['queue-only-appended'] = toks is not None
         for i, tk in enumerate(toks or []):
@@ -280,6 +317,9 @@ class AbstractTokenQueue:
     def append(ip, self, x):
         for j, c in enumerate(S.wellformed(V(x))):
             ip.ctx.oblige('token-queue.append.wellformed.%d' % j, c, kind='ensures')
+        if isinstance(x, Cell):
+            # the queue holds this very list object: it must not change any more (checked by queued_tokens_untouched)
+            x.sealed = 'queued token'
         self.attrs['n'] = SInt(V(self.attrs['n']) + 1)
     append._pyvc_native = True
 
@@ -348,6 +388,7 @@ class ParserFeedByte(Contract):
         tattrs = attrs_of(h.tok)
         out = {'byte-in-range': And(0 <= byte, byte <= 255)}
         out.update({'WF.' + k: v for k, v in wf_clauses(tattrs).items()})
+        out.update(alias_clauses(tattrs))
         out['tokenizer-queue-drained'] = len(tattrs['_messages']) == 0
         msgs = new_messages(h.parser)
         out['queue-only-appended'] = msgs is not None
@@ -397,7 +438,7 @@ class _TokFeedSummary:
         which = ctx.fork(3)
         stv = ctx.fresh('s_status')
         bs = ctx.fresh('s_bytes', IntSeq)
-        tok.attrs['_bytes'] = Cell(SSeq(bs, list), list)
+        tok.attrs['_bytes'] = havoc_buffer(bs, 0 if which == 0 else stv)
         if which == 0:
             tok.attrs['_status'] = 0
         elif which == 1:
@@ -450,7 +491,7 @@ class _DecodeLoop(LoopSpec):
 @contract
 class ParserFeed(Contract):
     target = 'mido.parser:Parser.feed'
-    properties = ('C04', 'C05', 'C19')
+    properties = ('C04', 'C05', 'C06', 'C19')
     configs = tuple({'mode': m} for m in MODES)
     use = ('mido.messages.checks:check_data',)
     loops = {('mido.parser:Parser._decode', 0): _DecodeLoop()}
@@ -467,6 +508,7 @@ class ParserFeed(Contract):
     def ensures(self, h, cfg, a, r):
         tattrs = attrs_of(h.tok)
         out = {'WF.' + k: v for k, v in wf_clauses(tattrs).items()}
+        out.update(alias_clauses(tattrs))
         q = tattrs['_messages']
         out['tokenizer-queue-drained'] = (len(q) == 0) if isinstance(q, collections.deque) else eq(V(attrs_of(q)['n']), 0)
         msgs = new_messages(h.parser)
@@ -479,7 +521,9 @@ class ParserFeed(Contract):
     def samples(self, cfg):
         out = []
         for d in ([], [0x90, 1, 2], [0x90, 1, 0xF8, 2], [0xF0, 1, 0xF8, 2, 0xF7, 5, 0xF7], [0xF4, 0xF5, 0xF9, 0xFD, 0xF7],
-                  [0x80] * 5 + [1, 2, 3, 4], [0xF6, 0xF1, 5, 0xF2, 1, 2, 0xF3, 9, 0xC1, 2, 0xD3, 4, 0xE5, 6, 7]):
+                  [0x80] * 5 + [1, 2, 3, 4], [0xF6, 0xF1, 5, 0xF2, 1, 2, 0xF3, 9, 0xC1, 2, 0xD3, 4, 0xE5, 6, 7],
+                  # undefined status bytes / stray bytes right after a complete, still queued message
+                  [0x90, 1, 2, 0xF4, 0x80, 3, 4], [0xF0, 1, 2, 0xF7, 0xF5, 0xF0, 9, 0xF7], [0xF2, 1, 2, 0xF4, 0xFA], [2, 0xF5, 0xC0, 1, 0xF4, 5, 0xF7]):
             v = {'data': d, 'bytes': [0x90, 1] if cfg['mode'] == 'fixed' else ([0xF0, 3] if cfg['mode'] == 'sysex' else [7])}
             if cfg['mode'] == 'fixed':
                 v.update(status=0x90, len=3)
@@ -623,6 +667,7 @@ class ResyncFixed(Contract):
         tattrs = attrs_of(h.tok)
         msgs = new_messages(h.parser)
         out = {'queue-only-appended': msgs is not None}
+        out.update(alias_clauses(tattrs))
         if msgs is None:
             return out
         out['exactly-one-message'] = len(msgs) == 1
@@ -662,8 +707,9 @@ class _SysexFeedLoop(LoopSpec):
     def havoc(self, ip, fr, st):
         ctx = ip.ctx
         t = st.tok
-        t.attrs['_status'] = SInt(ctx.fresh('h_status'))
-        t.attrs['_bytes'] = Cell(SSeq(ctx.fresh('h_bytes', IntSeq), list), list)
+        hst = ctx.fresh('h_status')
+        t.attrs['_status'] = SInt(hst)
+        t.attrs['_bytes'] = havoc_buffer(ctx.fresh('h_bytes', IntSeq), hst)
         which = ctx.fork(2)
         t.attrs['_len'] = SInt(ctx.fresh('h_len')) if which == 0 else INF
         t.attrs['_messages'] = collections.deque([Sentinel()])
@@ -689,6 +735,8 @@ class _SysexFeedLoop(LoopSpec):
             ip.ctx.oblige('sysex.queue-only-appended', False)
             return
         hints = self.hints(ip, fr, _Shift(st, i + 1), 'step')
+        for kk, c in alias_clauses(st.tok.attrs).items():
+            ip.ctx.oblige('sysex.' + kk, c, kind='ensures')
         k = len(toks)
         b = z3.If(i == 0, 0xF0, z3.If(i == n + 1, 0xF7, y[i - 1]))
         ip.ctx.oblige('sysex.at-most-one-token-per-byte', k <= 1, hints=hints)
